@@ -414,6 +414,7 @@ func (p c15) runSet(t *testing.T, sc *C15Scenario) harness.Outcome {
 		}
 	}
 	inconclusive := false
+	var post func() *simrt.Violation
 	w.final = func(w *taskWorld) *simrt.Violation {
 		if !w.allDead() {
 			return &simrt.Violation{Clause: "set-operations-return", Detail: fmt.Sprintf("operations on the host set have not returned: %v", w.blocked()), Sites: w.blocked()}
@@ -444,32 +445,40 @@ func (p c15) runSet(t *testing.T, sc *C15Scenario) harness.Outcome {
 			Step:  setModelStep,
 			Equal: func(a, b interface{}) bool { return a.(setModel).fp() == b.(setModel).fp() },
 		}
-		switch porcupine.CheckOperationsTimeout(model, ops, 20*time.Second) {
-		case porcupine.Illegal:
-			var hist []string
-			sort.Slice(ops, func(i, j int) bool { return ops[i].Call < ops[j].Call })
-			for _, o := range ops {
-				in := o.Input.(setIn)
-				out := o.Output.(setOut)
-				d := in.op + " " + in.addr
-				if in.op == "replace" {
-					d = fmt.Sprintf("replace %v", in.list)
+		post = func() *simrt.Violation {
+			switch porcupine.CheckOperationsTimeout(model, ops, linTimeout) {
+			case porcupine.Illegal:
+				var hist []string
+				sort.Slice(ops, func(i, j int) bool { return ops[i].Call < ops[j].Call })
+				for _, o := range ops {
+					in := o.Input.(setIn)
+					out := o.Output.(setOut)
+					d := in.op + " " + in.addr
+					if in.op == "replace" {
+						d = fmt.Sprintf("replace %v", in.list)
+					}
+					if in.op == "add" {
+						d += fmt.Sprintf(" backup=%v obj#%d", in.backup, in.id)
+					}
+					if in.op == "healthy" || in.op == "unhealthy" {
+						d += fmt.Sprintf(" obj#%d", in.id)
+					}
+					hist = append(hist, fmt.Sprintf("t%d [%d,%d] %s -> %v%s%d/%v", o.ClientId, o.Call, o.Return, d, out.list, out.addr, out.n, out.ok))
 				}
-				if in.op == "add" {
-					d += fmt.Sprintf(" backup=%v obj#%d", in.backup, in.id)
-				}
-				if in.op == "healthy" || in.op == "unhealthy" {
-					d += fmt.Sprintf(" obj#%d", in.id)
-				}
-				hist = append(hist, fmt.Sprintf("t%d [%d,%d] %s -> %v%s%d/%v", o.ClientId, o.Call, o.Return, d, out.list, out.addr, out.n, out.ok))
+				return &simrt.Violation{Clause: "usable-view-matches-model", Detail: "no order of the operations explains what the readers and the final quiescent view (last two entries) observed; usable = healthy members of the preferred tier, sorted: " + strings.Join(hist, "; ")}
+			case porcupine.Unknown:
+				inconclusive = true
 			}
-			return &simrt.Violation{Clause: "usable-view-matches-model", Detail: "no order of the operations explains what the readers and the final quiescent view (last two entries) observed; usable = healthy members of the preferred tier, sorted: " + strings.Join(hist, "; ")}
-		case porcupine.Unknown:
-			inconclusive = true
+			return nil
 		}
 		return nil
 	}
 	res := simrt.Run(t, w, sc.Options())
+	if res.Violation == nil && post != nil {
+		// the linearizability check runs after the bubble has ended, where its timeout is real time
+		progressTick()
+		res.Violation = post()
+	}
 	return harness.Outcome{Res: res, Faults: map[string]int{}, Nontrivial: overlap, Inconclusive: inconclusive}
 }
 
